@@ -13,6 +13,7 @@ import (
 	"strconv"
 	"strings"
 	"sync"
+	"sync/atomic"
 	"time"
 
 	"verif/harness"
@@ -51,6 +52,8 @@ func (k *knownFile) match(prop string, v *harness.Violation) (string, bool) {
 	}
 	return "", false
 }
+
+var workerSeq atomic.Int64
 
 func seedFromEnv() uint64 {
 	if s := os.Getenv("VERIF_SEED"); s != "" {
@@ -156,7 +159,7 @@ func firstLine(s string) string {
 func runWorker(ctx context.Context, bin, prop, tier string, seed uint64, from, to int, watchdog time.Duration, keepPlans int, emit func(harness.Record)) (done int, err error) {
 	ctx, cancel := context.WithTimeout(ctx, watchdog)
 	defer cancel()
-	out := filepath.Join(workDir(), "runs", fmt.Sprintf("w-%s-%d-%d.jsonl", prop, from, to))
+	out := filepath.Join(workDir(), "runs", fmt.Sprintf("w-%s-%d-%d-%d.jsonl", prop, from, to, workerSeq.Add(1)))
 	os.MkdirAll(filepath.Dir(out), 0o755)
 	defer os.Remove(out)
 	cmd := exec.CommandContext(ctx, bin, "-test.run", "^TestRun$", "-test.timeout", "0",
